@@ -419,6 +419,27 @@ func runC13(r *Runner, tier string, rng *Rng) {
 				}
 			}
 		}
+		if rng.Chance(6) && !symlinks {
+			// two files that are recorded under ONE name once their different prefixes are stripped —
+			// with different or with byte-identical content: an error in both cases, never a silent merge
+			// (seeded change c13-collision-tolerated-when-equal)
+			b1 := genContent(rng)
+			b2 := b1
+			if rng.Bool() {
+				b2 = append(append([]byte{}, b1...), 'x')
+			}
+			t := map[string]any{"t": "dir", "c": map[string]any{
+				"build": map[string]any{"t": "dir", "c": map[string]any{"stamp": map[string]any{"t": "file", "content": hex.EncodeToString(b1), "d": digestsOf(b1, norm)}}},
+				"vendor": map[string]any{"t": "dir", "c": map[string]any{"stamp": map[string]any{"t": "file", "content": hex.EncodeToString(b2), "d": digestsOf(b2, norm)}}},
+			}}
+			roots = []any{map[string]any{"path": "r1", "node": t}}
+			paths = nil
+			allPaths("r1", t, &paths)
+			lstrip = []any{"r1/build/", "r1/vendor/"}
+			if rng.Chance(30) {
+				lstrip = []any{"r1/build/"} // no collision: control
+			}
+		}
 		ignored := map[string]any{}
 		var pats []string
 		for _, p := range patterns {
@@ -575,5 +596,5 @@ func runC13(r *Runner, tier string, rng *Rng) {
 		}
 	}
 	flush()
-	r.St.Rule = "generated directory trees (depth <= 4, empty / binary / CR-LF-mix contents, symlinks to files and to symlink-free directories, dangling links, 1-2 roots incl. unclean and missing root paths and single-file roots), every subset class of sha256/384/512 plus unknown names and the empty list, normalisation and follow switches, gitignore-style exclude patterns (verdict = go-pathspec oracle), strip prefixes (symlink-free trees; 1-3 prefixes, also such that the remainder after the first match starts with another prefix); digests from crypto/sha*; plus: normalisation against the model's byte function, match-products three-way difference (requested algorithms and the link's hash objects over equal and different algorithm sets), before/after discipline of run and record start/stop, symlink cycles (error or correct record, never crash/hang). Class = (switches, shapes, outcome prefix)."
+	r.St.Rule = "generated directory trees (depth <= 4, empty / binary / CR-LF-mix contents, symlinks to files and to symlink-free directories, dangling links, 1-2 roots incl. unclean and missing root paths and single-file roots), every subset class of sha256/384/512 plus unknown names and the empty list, normalisation and follow switches, gitignore-style exclude patterns (verdict = go-pathspec oracle), strip prefixes (symlink-free trees; 1-3 prefixes, also such that the remainder after the first match starts with another prefix; names colliding after stripping with different and with identical content); digests from crypto/sha*; plus: normalisation against the model's byte function, match-products three-way difference (requested algorithms and the link's hash objects over equal and different algorithm sets), before/after discipline of run and record start/stop, symlink cycles (error or correct record, never crash/hang). Class = (switches, shapes, outcome prefix)."
 }
